@@ -32,6 +32,18 @@ func runErrCodec(s gens.ErrSpec) (r pbt.Result) {
 		return
 	}
 	want, fixed := s.ExpectedCode()
+	if s.Odd == "long_chain" {
+		// 130 transparent wrapper layers over the (possibly coded) error: by the statement ("attached at any depth of
+		// wrapping") the code is the attached one. drpcerr.Code gives up after 100 steps - known finding F31.
+		if pbt.Excluded("F31") {
+			r.Excluded = "F31"
+		} else {
+			want, fixed = 0, true
+			if s.HasCode {
+				want = s.Code
+			}
+		}
+	}
 	if fixed && code != want {
 		r.Failf("drpcerr.Code does not report the attached code")
 		r.Detailf("spec=%+v got=%d want=%d", s, code, want)
